@@ -11,12 +11,12 @@ LEVEL = "exploration"
 RULE = ("Hypothesis-generated prefix histories (<=8 ops: valid plain sets, links of every reference kind incl. nested, relinks, "
         "overrides, valid source updates) followed by exactly one rejected attempt: invalid plain value, reference whose current "
         "value is invalid for the target (Parameter holding 5000 / a string, bind, rx expression out of bounds, nested list), "
-        "constant or readonly violation by plain value or by reference; via instance attribute, single-key param.update or the "
+        "constant or readonly violation by plain value or by reference, a Composite with one invalid component; via instance attribute, single-key param.update or the "
         "class attribute; oracle = the attempt raises ValueError/TypeError, the full observable snapshot (every parameter value "
         "of every object by identity, per-(object, parameter) watcher counts, the linked names and their reference objects) is "
         "equal before and after, the universal event log gained nothing, and a behavioural probe (every source bumped to a fresh "
         "valid value) shows the target following exactly the links it had. Non-trivial = the rejected attempt happens while the "
-        "target has >=1 live link; distinct = case hash. A sixth of the cases use a second world instead: Dynamic numeric "
+        "target has >=1 live link; distinct = case hash. The class-level attempt may also go through a subclass that inherits the parameter (its own Parameters and its namespace are part of the snapshot). A sixth of the cases use a second world instead: Dynamic numeric "
         "parameters holding shared number generators under a time-dependent clock, with a rejected (constant / read-only / "
         "out-of-bounds) assignment of a generator or plain value; oracle = what every parameter yields at the unchanged time, "
         "the stored generators and the event log are the same before and after (non-trivial there = the rejected generator "
@@ -50,6 +50,8 @@ _attempt = st.one_of(
     st.tuples(st.just("bad_ref"), st.sampled_from(["x", "y", "t", "lst"]), st.sampled_from(["p", "bind", "rx", "dep", "nlist"])),
     st.tuples(st.just("bad_ref"), st.sampled_from(["x", "y"]), st.sampled_from(["p", "bind", "rx", "dep"])),
     st.tuples(st.just("constant"), st.sampled_from(["c", "r", "name", "sel"]), st.sampled_from(["plain", "ref"])),
+    # a Composite whose second component (or length) is invalid: the first, valid component must not be applied either
+    st.tuples(st.just("bad_composite"), st.just("pq"), st.sampled_from(["second_invalid", "first_invalid", "too_long"])),
 ).map(list)
 
 
@@ -58,7 +60,7 @@ def _case(draw):
     ctor = draw(st.lists(st.tuples(st.sampled_from(TN), st.just(None)), max_size=2, unique_by=lambda l: l[0]))
     ctor = [[n, draw(rw.ref_for(n))] for n, _ in ctor]
     return {"ctor": ctor, "prefix": draw(st.lists(_prefix_op(), max_size=8)), "attempt": draw(_attempt),
-            "route": draw(st.sampled_from(["attr", "attr", "update", "class", "ctor"])),
+            "route": draw(st.sampled_from(["attr", "attr", "update", "class", "ctor", "subclass"])),
             # the attempt may happen inside an open batch that already holds a queued (accepted) change
             "in_batch": draw(st.sampled_from([False, False, True]))}
 
@@ -168,6 +170,11 @@ def _execute_dynamic(case):
         tf(0, time_type=int)
 
 
+def _ident(v, pn):
+    """identity of a value for the snapshot; a Composite builds a new list on every read: its components' identities"""
+    return tuple(id(x) for x in v) if pn == "pq" else id(v)
+
+
 def _plain(n, k):
     return {"x": k, "y": k, "t": f"p{k}", "lst": [k], "d": {"p": k}, "p": k}[n]
 
@@ -187,6 +194,8 @@ def execute(case):
         kw[n] = ref
         links[n] = (fn, deps)
     tgt = T(**kw)
+    T2 = type("T2", (T,), {})          # inherits every Parameter; its namespace has been read (caches filled)
+    list(T2.param)
     log = []
     objs = {"S0": srcs[0], "S1": srcs[1], "BAD": bad, "T": tgt}
     for on, o in objs.items():
@@ -240,16 +249,20 @@ def execute(case):
             value = src_p.rx() if name == "t" else src_p.rx() * 1 + bad.param.w.rx()
         else:
             value = src_p
+    elif kind == "bad_composite":
+        value = {"second_invalid": [7, 99], "first_invalid": [99, 7], "too_long": [3, 4, 5]}[att[2]]
     else:
         if att[2] == "plain":
             value = {"c": 77, "r": 78, "name": "newname", "sel": 99}[name]
         else:
             value = srcs[0].param.v if name != "name" else srcs[0].param.s
+    if kind == "bad_composite" and route in ("ctor", "subclass"):
+        route = "attr"
     if name == "sel" and att[2] == "ref":
         value = 98
     if route == "ctor" and kind == "constant" and name != "r":
         route = "attr"           # constants may be given to the constructor: not a rejected attempt
-    if route == "class":
+    if route in ("class", "subclass"):
         if kind == "bad_ref" or (kind == "constant" and (name != "r" or att[2] == "ref")) or name in ("lst", "d", "t"):
             # references are not resolved at class level (a Parameter object assigned there re-declares the parameter) and
             # constants are legitimately assignable on the class: not rejected attempts
@@ -260,11 +273,14 @@ def execute(case):
         snap = {}
         for on, o in objs.items():
             for pn in o.param:
-                snap[("value", on, pn)] = id(o.param.get_value_generator(pn))
+                snap[("value", on, pn)] = _ident(o.param.get_value_generator(pn), pn)
             for pn, whats in o._param__private.watchers.items():
                 for what, ws in whats.items():
                     snap[("watchers", on, pn, what)] = len(ws)
-        snap[("cls_defaults",)] = tuple(id(getattr(T, pn)) for pn in T.param)
+        snap[("cls_defaults",)] = tuple(_ident(getattr(T, pn), pn) for pn in T.param)
+        # the subclass: which Parameters it holds itself, and which Parameter objects its namespace serves
+        snap[("subclass",)] = (tuple(sorted(n for n in vars(T2) if n in T.param)), tuple(id(T2.param[pn]) for pn in T.param),
+                               tuple(_ident(getattr(T2, pn), pn) for pn in T.param))
         snap[("metadata", "T.sel")] = (tuple(tgt.param.sel.objects), tuple(T.param.sel.objects))
         snap[("refs",)] = tuple(sorted((n, id(r)) for n, r in tgt._param__private.refs.items()))
         snap[("async_refs",)] = tuple(sorted(tgt._param__private.async_refs))
@@ -293,6 +309,8 @@ def execute(case):
             setattr(tgt, name, value)
         elif route == "update":
             tgt.param.update(**{name: value})
+        elif route == "subclass":
+            setattr(T2, name, value)
         else:
             setattr(T, name, value)
         raised = None
@@ -320,7 +338,7 @@ def execute(case):
     if diff:
         kinds = sorted({k[0] for k in diff})
         clause = {"value": "C02.value_changed", "watchers": "C02.watchers_changed", "refs": "C02.links_changed",
-                  "metadata": "C02.metadata_changed"}.get(kinds[0], "C02.state_changed")
+                  "metadata": "C02.metadata_changed", "subclass": "C02.class_namespace_changed"}.get(kinds[0], "C02.state_changed")
         if "refs" in kinds:
             clause = "C02.links_changed"
         res.fail(clause, f"{att!r} via {route} raised {type(raised).__name__} but the observable state changed: "
